@@ -32,7 +32,8 @@ RULE = ("cases are conjunctions (1..4) of alternatives (1..3) of relations {name
         "[a-z0-9][a-z0-9-]*, the five operators, 452 versions with epoch/tilde/colon/hyphen/revision, "
         "negated and plain architectures in any mixture, 1..3 "
         "restriction groups of 1..3 possibly negated profiles); mappings filled in 10 key orders; "
-        "structures reached by editing in place a list that was formatted just before (4 ways). Non-trivial = some single relation "
+        "structures reached by editing in place a list that was formatted just before (4 ways); "
+        "long fields of 255..5000 relations or alternatives. Non-trivial = some single relation "
         "carries at least 3 of the 4 optional parts; distinct = distinct canonical JSON")
 ASSUMPTIONS = [
     "expected parse result is the generated structure itself (no model of the parser)",
@@ -269,9 +270,43 @@ def mask_of(r):
                    zip("qvar", ["archqual", "version", "arch", "restrictions"]))
 
 
+def expand(case):
+    """{"rels": R, "repeat": n} stands for the conjunction R repeated n times with the package
+    names numbered (a long field written compactly); "wide": n repeats every group's
+    alternatives n times instead."""
+    n, w = case.get("repeat"), case.get("wide")
+    if n is None and w is None:
+        return case
+    if not all(isinstance(x, int) and 1 <= x <= 20000 for x in (n, w) if x is not None):
+        return None
+    rels = []
+    for i in range(n or 1):
+        for alts in case["rels"]:
+            g = []
+            for j in range(w or 1):
+                for r in alts:
+                    g.append(dict(r, name="%s%d.%d" % (r["name"], i, j)))
+            rels.append(g)
+    out = dict(case, rels=rels)
+    out.pop("repeat", None)
+    out.pop("wide", None)
+    return out
+
+
 def check(case):
     if not valid_case(case):
         return (False, ("invalid-case-skipped",))
+    big = case.get("repeat") or case.get("wide")
+    case = expand(case)
+    if case is None or not valid_case(case):
+        return (False, ("invalid-case-skipped",))
+    res = check_expanded(case)
+    if big:
+        return (res[0], sorted(set(res[1]) | {"long-field:%d-relations" % sum(len(a) for a in case["rels"])}))
+    return res
+
+
+def check_expanded(case):
     rels = to_library(case)
     exp = to_plain(case)
     mode = case.get("recycle")
@@ -419,6 +454,12 @@ def enum_cases():
         for k in range(1, 10):
             yield {"rels": [[fixed(m1, "p1")]], "korder": k}
             yield {"rels": [[fixed(m1, "p1"), fixed(masks[(k * 7) % 16], "p2")]], "korder": k}
+    # long fields: hundreds and thousands of relations / alternatives (Installed-Build-Depends of
+    # a .buildinfo easily has several hundred)
+    for n in (255, 256, 257, 258, 300, 1000, 5000):
+        yield {"rels": [[fixed(masks[5], "p")]], "repeat": n}
+        yield {"rels": [[fixed(masks[15], "p")], [fixed(masks[0], "q"), fixed(masks[9], "r")]], "repeat": n // 2 + 1}
+        yield {"rels": [[fixed(masks[3], "p")]], "wide": n}
     # the same structures reached by editing, in place, a list that was formatted just before
     for m1 in masks:
         for mode in range(1, 5):
